@@ -76,11 +76,29 @@ UNPROVED = (
 # ---------------------------------------------------------------------------------------
 # small helpers (urllib + public ural API only)
 # ---------------------------------------------------------------------------------------
+_memo = {}
+
+
 def _g(f, *a, **k):
+    """f(*a, **k) of the real code, exceptions as values; memoised (the same call is needed by
+    the model lines, the implementation outputs and the oracle of a case)"""
+    key = (f.__module__, f.__name__, a, tuple(sorted(k.items())))
     try:
-        return f(*a, **k)
+        r = _memo.get(key)
+    except TypeError:
+        key = None
+        r = None
+    if r is not None:
+        return r[0]
+    try:
+        v = f(*a, **k)
     except Exception as e:  # noqa
-        return _Exc(e)
+        v = _Exc(e)
+    if key is not None:
+        if len(_memo) > 4000:
+            _memo.clear()
+        _memo[key] = (v,)
+    return v
 
 
 class _Exc(object):
@@ -271,49 +289,6 @@ def oracle(case):
     if k == "host":
         return oracle_host(case)
     return None
-
-
-# ---------------------------------------------------------------------------------------
-# known findings
-# ---------------------------------------------------------------------------------------
-def _decodes_to_amp(host):
-    from ural.utils import attempt_to_decode_idna
-
-    for lab in (host or "").lower().split("."):
-        if lab.startswith("xn--") and attempt_to_decode_idna(lab).lower().startswith("amp-"):
-            return True
-    return False
-
-
-def kf_puny_amp_label(case, failure):
-    """KF-C07-1: a punycode label whose decoding starts with 'amp-' (normalize_hostname cuts 'amp-'
-    before decoding, normalize_url after)"""
-    lib.ural()
-    if "-host]" not in failure and "[bare-" not in failure:
-        return False
-    if case["k"] == "host":
-        return _decodes_to_amp(case["h"].strip())
-    if case["k"] != "url":
-        return False
-    u = case["url"]
-    return any(_decodes_to_amp(raw_host(v, i)) for v in (u, u.lower()) for i in (True, False))
-
-
-def kf_fp_helper_case_sensitive_redirect(case, failure):
-    """KF-C07-2: fingerprint_url lower-cases the url before inferring redirections,
-    get_fingerprinted_hostname does not"""
-    lib.ural()
-    from ural import infer_redirection
-
-    if "[fingerprint-host]" not in failure or case["k"] != "url":
-        return False
-    u = case["url"]
-    return infer_redirection(u).lower() != infer_redirection(u.lower())
-
-
-def kf_hostless_result(case, failure):
-    """KF-C07-3: urlunsplit(result)[2:] on a result without netloc"""
-    return ("-stems netloc=''" in failure) and "[canonical-stems]" not in failure
 
 
 # ---------------------------------------------------------------------------------------
